@@ -60,12 +60,34 @@ def cases(tier):
     ts = sorted(set(ts) | extra, key=lambda s: (len(s), s))
     for grp in range(0, len(ts), 16):
         out.append({"k": "jinja", "ts": ts[grp : grp + 16]})
+    # strings the Linter would normalise before lexing (lone CR): straight into the public Lexer
+    for d in corpus.dialects():
+        out.append({"k": "directblock", "d": d, "n": 3 if tier == "quick" else 4 if d == "ansi" else 3})
+    # every alphabet character arriving through template OUTPUT (context / parameter values), all templaters
+    out.append({"k": "tplchars"})
     kp = 3 if tier == "quick" else 4
     for first in PY_PIECES:
         out.append({"k": "python", "p": first, "n": kp})
     for first in PH_PIECES:
         out.append({"k": "placeholder", "p": first, "n": kp})
     return out
+
+
+# the value of x / :p is one alphabet character: between two words, alone, inside a comment, doubled
+TPL_SHAPES = [
+    {"jinja_ch": "SELECT a{{ x }}FROM t\n", "python_ch": "SELECT a{x}FROM t\n", "placeholder_ch": "SELECT a:p FROM t\n"},
+    {"jinja_ch": "{{ x }}", "python_ch": "{x}", "placeholder_ch": ":p"},
+    {"jinja_ch": "SELECT 1 -- {{ x }} c\nFROM t\n", "python_ch": "SELECT 1 -- {x} c\nFROM t\n", "placeholder_ch": "SELECT 1 -- :p c\nFROM t\n"},
+    {"jinja_ch": "SELECT {{ x }}{{ x }} FROM t\n", "python_ch": "SELECT {x}{x} FROM t\n", "placeholder_ch": "SELECT :p:p FROM t\n"},
+]
+
+
+def _ch_linter(kind, ch):
+    if kind == "jinja_ch":
+        return sq.linter("ansi", "jinja", configs={"templater": {"jinja": {"context": {"x": ch}}}})
+    if kind == "python_ch":
+        return sq.linter("ansi", "python", configs={"templater": {"python": {"context": {"x": ch}}}})
+    return sq.linter("ansi", "placeholder", configs={"templater": {"placeholder": {"param_style": "colon", "p": ch}}})
 
 
 def _pieces(first, pieces, n):
@@ -159,18 +181,29 @@ def _lex_one(lnt, text, templated, kind, extra, res):
 
         return add
 
-    try:
-        r = sq.render(lnt, text)
-    except Exception as e:  # render must not raise
-        mk(0)("render_exception", {"type": type(e).__name__}, {"msg": str(e)[:200]})
-        return
-    if not r.templated_variants:
-        res["stats"]["no_variant"] = res["stats"].get("no_variant", 0) + 1
-        return
-    for vi, tf in enumerate(r.templated_variants):
+    if kind == "direct":
+        # the public Lexer API on the text as given (Linter.render_string would normalise line endings first)
+        from sqlfluff.core import Lexer
+        from sqlfluff.core.templaters import TemplatedFile
+
+        variants, config = [TemplatedFile.from_string(text)], lnt.config
+    else:
+        try:
+            r = sq.render(lnt, text)
+        except Exception as e:  # render must not raise
+            mk(0)("render_exception", {"type": type(e).__name__}, {"msg": str(e)[:200]})
+            return
+        if not r.templated_variants:
+            res["stats"]["no_variant"] = res["stats"].get("no_variant", 0) + 1
+            return
+        variants, config = r.templated_variants, r.config
+    for vi, tf in enumerate(variants):
         add = mk(vi)
         try:
-            toks, errs = Linter._lex_templated_file(tf, r.config)
+            if kind == "direct":
+                toks, errs = Lexer(config=config).lex(text)
+            else:
+                toks, errs = Linter._lex_templated_file(tf, config)
         except Exception as e:
             add("lex_exception", {"type": type(e).__name__}, {"msg": str(e)[:200]})
             continue
@@ -267,6 +300,16 @@ def run_case(case):
             p = case["p"]
             txt = p + ("" if (not s or p.endswith("\n")) else " ") + s
             one(lnt, txt, False, "raw", {"d": case["d"]})
+    elif k == "directblock":
+        lnt = sq.linter(case["d"], "raw")
+        for s in corpus.sigma_c(case["n"]):
+            if "\r" in s:
+                one(lnt, s, False, "direct", {"d": case["d"]})
+    elif k == "tplchars":
+        for ci, ch in enumerate(corpus.SIGMA_C):
+            for shape in range(len(TPL_SHAPES)):
+                for kind in ("jinja_ch", "python_ch", "placeholder_ch"):
+                    one(_ch_linter(kind, ch), TPL_SHAPES[shape][kind], True, kind, {"ch": ci, "shape": shape})
     elif k == "jinja":
         for t in case["ts"]:
             for ci, ctx in enumerate(corpus.T_CTX):
@@ -289,6 +332,10 @@ def run_case(case):
             ctx = corpus.T_CTX[case["ctx"]]
             lnt = sq.linter("ansi", "jinja", configs=sq.jinja_ctx_configs(ctx), template_blocks_indent=case["tbi"])
             one(lnt, case["s"], True, "jinja", {"ctx": case["ctx"], "tbi": case["tbi"]})
+        elif kind == "direct":
+            one(sq.linter(case["d"], "raw"), case["s"], False, "direct", {"d": case["d"]})
+        elif kind.endswith("_ch"):
+            one(_ch_linter(kind, corpus.SIGMA_C[case["ch"]]), case["s"], True, kind, {"ch": case["ch"], "shape": case["shape"]})
         elif kind == "python":
             lnt = sq.linter("ansi", "python", configs={"templater": {"python": {"context": {"a": "x", "b.c": "y"}}}})
             one(lnt, case["s"], True, "python", {})
